@@ -147,6 +147,9 @@ pub fn generate(r: &mut Rng, tier: Tier, run_index_hint: u64) -> Scenario {
             if r.chance(1, 4) {
                 rfaults.push(ReaderFault { import: 1 + r.usize(n_imports.max(1)), kind: r.pick(&FaultKind::ALL).clone() });
             }
+        } else if r.chance(1, 2) {
+            // no reader fault planned: let the editor integration's real reader serve the run
+            personality = Personality::Lsp;
         }
     }
     let entropy: Vec<u64> = (0..2).map(|_| r.next_u64() >> 11).collect();
@@ -263,9 +266,7 @@ pub fn check(scn: &Scenario, stats: &mut Stats) -> Vec<Violation> {
     // T1
     feats.insert("personality".into(), format!("{:?}", scn.personality));
     for api in [Api::Coded, Api::Run] {
-        let mut spec = LintSpec::new(&scn.world, scn.entropy[0], api.clone());
-        spec.personality = scn.personality;
-        spec.faults = scn.reader_faults.clone();
+        let mut spec = LintSpec::of(scn, scn.entropy[0], api.clone());
         spec.want_snapshot = api == Api::Coded;
         let o = lint::run(&spec);
         stats.inc("t1_incarnations");
@@ -291,6 +292,8 @@ pub fn check(scn: &Scenario, stats: &mut Stats) -> Vec<Violation> {
         if api == Api::Coded {
             // bounded progress in logical steps
             let parse = o.ticks.get("parse").copied().unwrap_or(0);
+            // characters actually handed to the parser (a file included n times counts n times)
+            let chars = if o.imported_chars > 0 { o.imported_chars as u64 } else { chars * (1 + scn.world.include_occurrences() as u64) };
             let parse_bound = 2 * chars + 8 * o.imports as u64 + 64;
             if parse > parse_bound {
                 out.push(viol("bounded-progress", "steps:parse".into(), format!("parse loop took {parse} steps for {chars} characters and {} imports (bound {parse_bound})", o.imports), &feats));
